@@ -19,6 +19,11 @@ use crate::sched::{ClockSteps, CpuPlan, Mode, Outcome, Policy, Sched, Stop, run_
 use crate::store::SimStore;
 use crate::world::{KeyMat, RepoCfg, backup_model, repo_init, repo_open};
 
+/// open a repository handle on a (cold, optional hot) store pair
+pub fn open_on(store: &Arc<SimStore>, hot: &Option<Arc<SimStore>>, actor: u32, key: &KeyMat) -> RusticResult<crate::world::RepoOpen> {
+    crate::world::repo_on(store.handle(actor), hot.as_ref().map(|h| h.handle(actor)), None)?.open(&key.creds())
+}
+
 #[derive(Debug)]
 pub enum Cmd<T> {
     Ok(T),
@@ -76,6 +81,8 @@ pub struct SnapRec {
 pub struct Sim {
     pub sched: Arc<Sched>,
     pub store: Arc<SimStore>,
+    /// the hot store of a hot/cold pair (`store` is then the cold one)
+    pub hot: Option<Arc<SimStore>>,
     pub key: KeyMat,
     pub cfg: RepoCfg,
     pub cpus: CpuPlan,
@@ -100,6 +107,7 @@ impl Sim {
         Self {
             sched,
             store,
+            hot: None,
             key: KeyMat::from_seed(seed),
             cfg,
             cpus: cpus.clone(),
@@ -162,16 +170,19 @@ impl Sim {
     }
 
     pub fn init(&mut self) -> Cmd<()> {
-        let (store, key, cfg) = (self.store.clone(), self.key.clone(), self.cfg.clone());
-        self.run(&Mode::Free, move || repo_init(&store, 1, &key, &cfg).map(|_| ()))
+        let (store, hot, key, cfg) = (self.store.clone(), self.hot.clone(), self.key.clone(), self.cfg.clone());
+        self.run(&Mode::Free, move || {
+            let repo = crate::world::repo_on(store.handle(1), hot.as_ref().map(|h| h.handle(1)), None)?;
+            if hot.is_some() { crate::world::repo_init_hotcold(repo, &key, &cfg).map(|_| ()) } else { crate::world::repo_init_on(repo, &key, &cfg).map(|_| ()) }
+        })
     }
 
     /// back up `model`; on success the snapshot is recorded in `self.snaps`
     pub fn backup(&mut self, mode: &Mode, model: &FsModel, actor: u32, opts: &BackupOptions, plan: &ReadPlan, label: &str) -> Cmd<SnapshotFile> {
-        let (store, key, sched, model2, plan2, opts2, seed, label2) =
-            (self.store.clone(), self.key.clone(), self.sched.clone(), model.clone(), plan.clone(), opts.clone(), self.seed, label.to_string());
+        let (store, hot, key, sched, model2, plan2, opts2, seed, label2) =
+            (self.store.clone(), self.hot.clone(), self.key.clone(), self.sched.clone(), model.clone(), plan.clone(), opts.clone(), self.seed, label.to_string());
         let r = self.run(mode, move || {
-            let repo = repo_open(&store, actor, &key)?.to_indexed_ids()?;
+            let repo = open_on(&store, &hot, actor, &key)?.to_indexed_ids()?;
             backup_model(&repo, &model2, &sched, actor, &plan2, seed, &opts2, &label2).map(|b| b.snap)
         });
         if let Cmd::Ok(snap) = &r {
@@ -183,10 +194,10 @@ impl Sim {
     }
 
     pub fn forget(&mut self, mode: &Mode, actor: u32, ids: &[String]) -> Cmd<()> {
-        let (store, key) = (self.store.clone(), self.key.clone());
+        let (store, hot, key) = (self.store.clone(), self.hot.clone(), self.key.clone());
         let sids: Vec<SnapshotId> = ids.iter().map(|h| h.parse::<rustic_core::Id>().expect("hex").into()).collect();
         let r = self.run(mode, move || {
-            let repo = repo_open(&store, actor, &key)?;
+            let repo = open_on(&store, &hot, actor, &key)?;
             repo.delete_snapshots(&sids)
         });
         if r.is_ok() {
@@ -198,9 +209,9 @@ impl Sim {
     }
 
     pub fn prune(&mut self, mode: &Mode, actor: u32, opts: &PruneOptions) -> Cmd<()> {
-        let (store, key, opts2) = (self.store.clone(), self.key.clone(), opts.clone());
+        let (store, hot, key, opts2) = (self.store.clone(), self.hot.clone(), self.key.clone(), opts.clone());
         self.run(mode, move || {
-            let repo = repo_open(&store, actor, &key)?;
+            let repo = open_on(&store, &hot, actor, &key)?;
             let plan = repo.prune_plan(&opts2)?;
             repo.prune(&opts2, plan)
         })
@@ -210,12 +221,15 @@ impl Sim {
     /// must read back equal to its model, and check(read_data) must be clean. Findings are
     /// (fingerprint suffix, detail).
     pub fn verify(&mut self, read_data: bool) -> Vec<(String, String)> {
-        let (store, key) = (self.store.clone(), self.key.clone());
+        // the oracle reads through non-cold copies of the stores (its reads need no warm-up)
+        let store = SimStore::from_files("verify", Sched::new(), self.store.files());
+        let hot = self.hot.as_ref().map(|h| SimStore::from_files("verify-hot", Sched::new(), h.files()));
+        let key = self.key.clone();
         let snaps: Vec<SnapRec> = self.snaps.values().cloned().collect();
         let mut rng = self.rng.fork("verify");
         let r = self.run(&Mode::Free, move || {
             let mut findings: Vec<(String, String)> = vec![];
-            let repo = match repo_open(&store, 90, &key).and_then(|r| r.to_indexed()) {
+            let repo = match open_on(&store, &hot, 90, &key).and_then(|r| r.to_indexed()) {
                 Ok(r) => r,
                 Err(e) => {
                     findings.push((format!("reopen-failed:{}", classify(&etext(&e))), etext(&e)));
@@ -270,6 +284,7 @@ impl Sim {
         Self {
             sched,
             store,
+            hot: None,
             key: self.key.clone(),
             cfg: self.cfg.clone(),
             cpus: self.cpus.clone(),
